@@ -395,6 +395,51 @@ def engine_channels(run):
               "with the same {ns}tag", "root tag test changed", c.loc())
 
 
+def e4_foreign_content(run):
+    run.rule("E4", "foreign (unknown) content: _extension_element_from_"
+             "element_tree keeps every child element in document order (one "
+             "append per child, inside a loop over the parsed element itself), "
+             "every attribute and the text")
+    m = run.model
+    fi = m.func("_extension_element_from_element_tree")
+    cfg = cfg_of(fi, m)
+    p = [a for a in fi.params() if a != "self"][0]
+    loops = _loop_over(cfg, lambda t: t == p)
+    apps = [(nd, c) for nd, c in cfg.call_nodes("append") +
+            cfg.call_nodes("extend") + cfg.call_nodes("insert")
+            if (attr_chain(c.func) or "").split(".")[-2:-1] == ["children"]]
+    run.floor("E4", "child stores in the foreign-content reader", len(apps), 1)
+    for nd, c in apps:
+        key = "%s::%s" % (fi.qual, norm_text(c)[:60])
+        inl = [lp for lp in loops if any(x is c for x in ast.walk(lp.ast))]
+        lv = {x.id for lp in inl for x in ast.walk(lp.ast.target)
+              if isinstance(x, ast.Name)}
+        used = {x.id for a in c.args for x in ast.walk(a)
+                if isinstance(x, ast.Name)}
+        ok = call_name(c) == "append" and bool(inl) and bool(lv & used) and \
+            not _value_guards(cfg, nd.id, lv)
+        run.check(ok, "E4", key,
+                  "each child is appended as it is met, in document order",
+                  "children of a foreign element are not stored one by one "
+                  "in a loop over the parsed element (work lists / stacks "
+                  "change sibling order): what is serialised again differs "
+                  "from what was parsed", fi.loc(c))
+    at = _loop_over(cfg, lambda t: t.endswith(".attrib.items()") or
+                    t == "%s.items()" % p) or \
+        [nd for nd, c in cfg.call_nodes("update")
+         if c.args and cfg.itext(c.args[0], nd.id).endswith(".attrib")]
+    tx = [nd for nd in cfg.by_kind("stmt") if isinstance(nd.ast, ast.Assign)
+          and (attr_chain(nd.ast.targets[0]) or "").endswith(".text") and
+          cfg.itext(nd.ast.value, nd.id).endswith(".text")] or \
+        [nd for nd, c in cfg.call_nodes("ExtensionElement")
+         if arg_of(c, None, "text") is not None and
+         cfg.itext(arg_of(c, None, "text"), nd.id).endswith(".text")]
+    run.check(bool(at) and bool(tx), "E4", fi.qual + "::attributes-and-text",
+              "attributes and text of a foreign element are kept",
+              "attributes or text of foreign content are no longer read",
+              fi.loc())
+
+
 def check(run):
     run.explanation = (
         "C12: exhaustive agreement of the generated tables for all schema "
@@ -413,3 +458,7 @@ def check(run):
     table_rules(run, data)
     module_maps(run, data)
     engine_channels(run)
+    e4_foreign_content(run)
+    from ..common_rules import shared_state_rule
+    shared_state_rule(run, "E5", {"", "saml2_tophat", "extension_elements_to_elements"},
+                      "parsing / serialising one element")
